@@ -29,16 +29,22 @@ MODELLED_NOT_VERIFIED = [
     "taxa, exact lengths), removed-node sets, exception kinds and (leafset, split) encodings",
     "C08: case folding of labels is str.lower() in the code and ASCII String.toLower in the model (generated labels are ASCII); node "
     "labels/annotations and source immutability are checked by the harness only; filter functions are represented by the set of node ids / "
-    "taxa they accept; update_bipartitions=True is exercised on rooted trees only (on unrooted trees the re-encoding collapses the basal "
-    "bifurcation, which is C01/C14 territory; the theorem upd_eq_fresh_encoding covers every rooting state)",
+    "taxa they accept; update_bipartitions=True is exercised on all three rooting states for prune_taxa(_with_labels on unique labels), "
+    "retain_taxa, filter_leaf_nodes and prune_subtree (unrooted: the oracle expects the induced subtree with its basal bifurcation "
+    "collapsed, checks path lengths, leafset and split bitmasks from scratch); the multi-match by-label cases and "
+    "prune_leaves_without_taxa use it on rooted trees only; prune_taxa with is_apply_filter_to_leaf_nodes=False or taxa on internal "
+    "nodes has no independent specification (model correspondence and well-formedness only)",
 ]
 EXPLANATION = ("Theorems over all trees/predicates about the definitions drv_c08 runs. Mechanism = specification: prune_eq_restrict, "
-               "prune_flags_eq_spec / prune_internal_flag_eq_restrict (both flags, internal taxa), filter_eq_restrict, filter_eq_restrictA / "
+               "prune_flags_eq_spec (only the loop half has a specification; the strike pass stands for itself) / prune_internal_flag_eq_restrict, filter_eq_restrict, filter_eq_restrictA / "
                "removed_spec_any / dropLoop_fuel / filter_once_spec (arbitrary filters, fuel, non-recursive), retain_eq_prune_compl, "
                "extract_eq_restrict / extract_flags_eq_spec / extract_error_kind (memo fold = spec for both filter flags, with the exception "
                "class), extract_node_eq_restrict / extract_node_flags_eq_spec (any start node), prune_subtree_eq_restrict, variants_agree; "
                "by label: get_taxa_spec, named_iff_label, labels_variants_eq_restrict, labels_prune_retain_agree; update_bipartitions: "
-               "upd_eq_fresh_encoding (any rooting), upd_rooted_encoding, upd_rooted_leafsets, upd_subtree_rooted. About the specification: "
+               "upd_eq_fresh_encoding (by the model's construction: in-place routine then C01 encode), upd_rooted_encoding, upd_rooted_leafsets, "
+               "upd_subtree_rooted, upd_not_rooted / collapse_keeps_leafset_drops_one_clade / upd_leafsets_any_rooting (unrooted: basal collapse, "
+               "leafset kept, listed leafsets are restrictions). Driver inputs: checked_input_ok (distinct ids enforced by the input guard, "
+               "well-formed lengths derived). About the specification: exSpec_eq_restrict_of_accepting_inner, extract_wrapper_filter_internal_flag, "
                "restrict_sup_commutes, restrict_clades, restrict_none_clades, restrict_pathlen, restrict_rootlen, distF_denotes, "
                "restrict_pathlen_exec, restrict_pathlen_parsed (no side condition: parsed_lengths_wf, restrict_lengths_wf), alive_spec, "
                "nosuppress_nodes, nosuppress_edges, nosuppress_spec, suppress_no_unary, removed_spec, single_survivor, restrictA_eq_restrict, "
@@ -178,6 +184,20 @@ def survivors_extract(src, acc, fl, fi):
     return reach, status
 
 
+def collapse_nest(t):
+    """what re-encoding an UNROOTED tree does to a basal bifurcation (update_bipartitions / encode_bipartitions documented
+    default): the seed's second child is dissolved if it is internal, else the first if it is internal; the dissolved node's
+    children take its place and its edge length goes to the kept sibling"""
+    if t is None or len(t[3]) != 2:
+        return t
+    a, b = t[3]
+    if len(b[3]) >= 2:
+        return (t[0], t[1], t[2], [(a[0], a[1], addlen(a[2], b[2]), a[3])] + list(b[3]))
+    if len(a[3]) >= 2:
+        return (t[0], t[1], t[2], list(a[3]) + [(b[0], b[1], addlen(b[2], a[2]), b[3])])
+    return t
+
+
 def sort_nest(t):
     if t is None:
         return None
@@ -213,8 +233,9 @@ def nest_of(seed, idfn, tns):
 def fingerprint(tree):
     out = [id(tree.seed_node), tree.is_rooted, id(tree.taxon_namespace), tree.label, tree.weight]
     for nd in tu.walk(tree.seed_node):
-        out.append((id(nd), id(nd._parent_node), tuple(id(c) for c in nd._child_nodes), id(nd.taxon), nd.edge.length,
-                    nd.label, id(nd._edge), id(nd._edge._head_node), id(nd._edge.tail_node), getattr(nd, "extraction_source", None)))
+        e = nd.edge
+        out.append((id(nd), id(nd.parent_node), tuple(id(c) for c in nd.child_node_iter()), id(nd.taxon), e.length,
+                    nd.label, id(e), id(e.head_node), id(e.tail_node), e.label, getattr(nd, "extraction_source", None)))
     out.append(tuple(id(t) for t in tree.taxon_namespace))
     return out
 
@@ -343,7 +364,12 @@ def clause_checks(ctx, what, case, src, surv_leaves, res_tree, sup, fail):
             smask[v] |= smask[c]
     want = set(m & Kmask for m in smask.values()) - {0}
     got = set(tu.leafset_masks(res_tree).values())
-    if got != want:
+    if case.get("_collapsed"):
+        # an unrooted tree re-encoded by update_bipartitions: the clade of the dissolved basal child (one clade) may be missing
+        if not (got <= want and len(want - got) <= 1):
+            return fail("clades", "%s: clades of the re-encoded unrooted result %s, non-empty restrictions of the source clades %s" % (
+                what, sorted(got), sorted(want)))
+    elif got != want:
         return fail("clades", "%s: clades of the result %s, non-empty restrictions of the source clades %s" % (what, sorted(got), sorted(want)))
     # (c) path lengths between surviving leaves unchanged (None counts as no length)
     depth = {}
@@ -385,6 +411,12 @@ def judge(ctx, case, variant, src, surv, out, expect_removed=None):
     res = out["tree"]
     tns = res.taxon_namespace
     want = build_from_survivors(src, surv, sup)
+    if case.get("upd") and out.get("source") is None and case.get("rooted") != "R":
+        w2 = collapse_nest(want)
+        if w2 != want:
+            case = dict(case, _collapsed=True)
+            ctx.count("update_bipartitions-collapsed-basal-bifurcation")
+        want = w2
     got = nest_of(res.seed_node, out["idfn"], tns)
     out["nest"] = got
     if res.seed_node._parent_node is not None:
@@ -441,6 +473,14 @@ def judge(ctx, case, variant, src, surv, out, expect_removed=None):
         got_enc = None if enc is None else sorted(b.leafset_bitmask for b in enc)
         if got_enc != masks:
             return fail("bipartitions", "%s(update_bipartitions=True): encoding leafsets %s, clades of the resulting tree %s" % (variant, got_enc, masks))
+        L = max(masks) if masks else 0
+        low = L & -L
+        for b in enc:
+            m = b.leafset_bitmask
+            ws = m if case.get("rooted") == "R" else ((L & ~m) if (m & low) else m)
+            if L and b.split_bitmask != ws:
+                return fail("bipartitions", "%s(update_bipartitions=True): split bitmask %s for leafset %d on tree leafset %d (rooting %s), expected %d" % (
+                    variant, b.split_bitmask, m, L, case.get("rooted"), ws))
     return False
 
 
@@ -483,12 +523,14 @@ def taxon_group(ctx, dendropy, case, pending, variants=None):
             ctx.fail("structure", "%s: result contains a cycle" % variant, dict(case, variant=variant))
             continue
         if not bad:
-            pending.append((out["line"], dict(case, variant=variant), impl_text(out)))
-            if case["upd"] and case["rooted"] == "R" and out["line"].split()[0] in ("prune", "retain", "filter"):
+            inpl_upd = case["upd"] and out.get("source") is None
+            if not (inpl_upd and case["rooted"] != "R"):
+                pending.append((out["line"], dict(case, variant=variant), impl_text(out)))     # the plain op knows no re-encoding
+            if inpl_upd and out["line"].split()[0] in ("prune", "retain", "filter"):
                 w = out["line"].split()
                 rest = w[4:] if w[0] == "prune" else (w[3:] if w[0] == "filter" else w[2:])
-                pending.append(("upd R %s %s %s" % (w[1], w[0], " ".join(rest)), dict(case, variant=variant + "+update_bipartitions"),
-                                upd_text(out)))
+                pending.append(("upd %s %s %s %s" % (case["rooted"], w[1], w[0], " ".join(rest)),
+                                dict(case, variant=variant + "+update_bipartitions"), upd_text(out)))
     if len(src.leaves) <= 14 and case.get("measure", True):
         measure_line(ctx, dendropy, case, src, pending)
     # the specification of the model itself against this oracle's induced subtree
@@ -548,9 +590,10 @@ def filter_case(ctx, dendropy, case, pending):
     # the surviving leaves are original leaves
     c2 = dict(case, clause_checks=all(not src.kids[i] for i in surv if not any(c in surv for c in src.kids[i])))
     if not judge(ctx, c2, "filter_leaf_nodes", src, surv, out):
-        pending.append((line, case, impl_text(out)))
-        if rec and case["upd"] and case["rooted"] == "R":
-            pending.append(("upd R %d filter ids %s %s" % (case["sup"], nums(sorted(acc)), " ".join(case["tree"])),
+        if not (case["upd"] and case["rooted"] != "R"):
+            pending.append((line, case, impl_text(out)))
+        if rec and case["upd"]:
+            pending.append(("upd %s %d filter ids %s %s" % (case["rooted"], case["sup"], nums(sorted(acc)), " ".join(case["tree"])),
                             dict(case, variant="filter_leaf_nodes+update_bipartitions"), upd_text(out)))
     if rec:
         # the model's generalised specification against this oracle's survivors
@@ -661,9 +704,10 @@ def subtree_case(ctx, dendropy, case, pending):
         return
     out = {"tree": tree, "idfn": ids.of, "ids": ids}
     if not judge(ctx, case, "prune_subtree", src, surv, out):
-        pending.append((line, case, impl_text(out)))
-        if case["upd"] and case["rooted"] == "R":
-            pending.append(("upd R %d subtree %d %s" % (case["sup"], v, " ".join(case["tree"])),
+        if not (case["upd"] and case["rooted"] != "R"):
+            pending.append((line, case, impl_text(out)))
+        if case["upd"]:
+            pending.append(("upd %s %d subtree %d %s" % (case["rooted"], case["sup"], v, " ".join(case["tree"])),
                             dict(case, variant="prune_subtree+update_bipartitions"), upd_text(out)))
 
 
@@ -793,10 +837,15 @@ def flags_case(ctx, dendropy, case, pending):
     try:
         tree.prune_taxa([by_bit[b] for b in P], suppress_unifurcations=case["sup"], is_apply_filter_to_leaf_nodes=case["fl"],
                         is_apply_filter_to_internal_nodes=case["fi"])
-    except Exception:
-        # the seed itself would have to go (today: 'NoneType' has no attribute 'remove_child'); the model says "err" exactly then,
-        # whatever exception class the code chooses
-        pending.append((line, case, "err"))
+    except Exception as e:
+        # the seed itself would have to go, i.e. NO leaf survives: outside the quantifier of the statement.  The code has no
+        # deliberate refusal there today (AttributeError: 'NoneType' has no attribute 'remove_child'); that crash and a deliberate
+        # library refusal are accepted and compared with the model's "err"; anything else is a crash on an in-domain input
+        name = exc_name(e)
+        if name in ("AttributeError", "SeedNodeDeletion", "ValueError"):
+            pending.append((line, case, "err"))
+        else:
+            ctx.fail("exception", "prune_taxa(flags) raised %s: %s" % (name, str(e)[:200]), case)
         return
     probs = tu.arborescence_problems(tree)
     if probs:
@@ -904,8 +953,8 @@ def gen_taxon_case(dendropy, rng, max_leaves):
     case["P_extra"], case["K_extra"] = extras(rng, case, src)
     case["sup"] = rng.random() < 0.6
     case["upd"] = rng.random() < 0.3
-    if case["upd"]:
-        case["rooted"] = "R"
+    if case["upd"] and rng.random() < 0.4:
+        case["rooted"] = "R"       # the rest keeps its rooting state: unrooted / undefined trees get their basal bifurcation collapsed
     case["op"] = "taxa"
     return case
 
@@ -928,7 +977,7 @@ def gen_pred_case(dendropy, rng, max_leaves):
         pi = rng.choice([0.0, 0.0, 0.3, 1.0])
         acc = [i for i in range(src.n) if rng.random() < (pi if src.kids[i] else p)]
         case.update(op="filter", acc=acc, recursive=rng.random() < 0.65, upd=rng.random() < 0.25)
-        if case["upd"]:
+        if case["upd"] and rng.random() < 0.4:
             case["rooted"] = "R"
     elif r < 0.68:
         p = rng.choice([0.3, 0.6, 0.9])
@@ -946,7 +995,7 @@ def gen_pred_case(dendropy, rng, max_leaves):
         if src.n < 2:
             return None
         case.update(op="subtree", node=rng.choice([i for i in range(src.n) if i != src.root]), upd=rng.random() < 0.25)
-        if case["upd"]:
+        if case["upd"] and rng.random() < 0.4:
             case["rooted"] = "R"
     return case
 
@@ -993,10 +1042,10 @@ def flush(ctx, pending):
 def run(ctx):
     dendropy = __import__("dendropy")
     rng = ctx.rng
-    ctx.set_budget(38, 420)
+    ctx.set_budget(30, 420)
     ctx.budget_s += time.time() - ctx.t0      # the budget counts from here: waiting for the build lock must not eat the cases
     pending = []
-    n = ctx.pick(5000, 60000)
+    n = ctx.pick(4000, 60000)
     max_leaves = ctx.pick(12, 30)
     for k in range(n):
         if ctx.out_of_time():
@@ -1072,6 +1121,7 @@ def replay(ctx, rec):
     dendropy = __import__("dendropy")
     case = dict(rec["replay"])
     case.pop("only_case_folded_match", None)
+    case.pop("_collapsed", None)
     pending = []
     variant = case.pop("variant", None)
     case.pop("clause_checks", None)
@@ -1095,7 +1145,7 @@ def search(ctx, broken):
                         for sup in (True, False):
                             for upd in (False, True):
                                 case = dict(base, K=sorted(K), P_extra=[], K_extra=[], sup=sup, upd=upd, op="taxa",
-                                            rooted="R" if upd else base["rooted"])
+                                            rooted=base["rooted"])
                                 taxon_group(ctx, dendropy, case, pending)
                         if ctx.failures:
                             flush(ctx, pending)
